@@ -362,6 +362,7 @@ void readVector(std::istream &is, std::vector<VecType> &x){
     }else{
         is.read((char*) x.data(), x.size() * sizeof(VecType));
     }
+    if (is.fail()) throw std::runtime_error("ERROR: unexpected end of stream or bad format while reading a vector");
 }
 
 /*!
@@ -397,6 +398,7 @@ Val readNumber(std::istream &is){
     }else{
         is.read((char*) &v, sizeof(Val));
     }
+    if (is.fail()) throw std::runtime_error("ERROR: unexpected end of stream or bad format while reading a number");
     return v;
 }
 
